@@ -27,6 +27,7 @@ mod c10;
 mod c09;
 mod c04;
 mod c11;
+mod c05;
 
 use std::io::{BufRead, Write};
 
@@ -87,6 +88,7 @@ fn lookup(id: &str) -> Option<(&'static str, Gen, Exec)> {
         "C09" => Some(("C09", c09::generate, c09::exec)),
         "C04" => Some(("C04", c04::generate, c04::exec)),
         "C11" => Some(("C11", c11::generate, c11::exec)),
+        "C05" => Some(("C05", c05::generate, c05::exec)),
         _ => None,
     }
 }
